@@ -281,10 +281,10 @@ def main(argv=None):
             import jsonschema
             with open("/root/.vp/EVIDENCE.schema.json") as f:
                 jsonschema.validate(ev, json.load(f))
-        except ImportError:
+        except (ImportError, FileNotFoundError):
             pass
-        except FileNotFoundError:
-            pass
+        except Exception as e:  # noqa: an evidence file that does not validate is a harness problem, not a verdict
+            harness_errors.append({"seed": None, "harness_error": f"evidence does not validate: {str(e)[:400]}"})
     ok_runs = sum(1 for r in records if "harness_error" not in r)
     print(f"runs={len(records)} ok={ok_runs} violations_unlisted={len(seen_sigs)} known={len(known_hit)} "
           f"harness_errors={len(harness_errors)} wall={wall:.1f}s", flush=True)
